@@ -209,21 +209,44 @@ func appendSnapshotConstants(b []byte, s *slip.Scope) []byte {
 }
 
 func appendSnapshotFlavors(b []byte, s *slip.Scope) []byte {
-	var fa []*flavors.Flavor
+	var fa []slip.Class
 	for _, f := range flavors.All() {
 		p := f.Pkg()
 		if p != nil && !p.Locked && len(p.LoadPath()) == 0 && p.Name != "flavors" {
 			fa = append(fa, f)
 		}
 	}
-	sort.Slice(fa, func(i, j int) bool {
-		return fa[j].Inherits(fa[i])
-	})
-	for _, f := range fa {
+	for _, f := range inheritOrder(fa) {
 		b = append(b, '\n')
 		b = pp.Append(b, s, f.LoadForm())
 	}
 	return b
+}
+
+// inheritOrder returns the classes ordered by name except that the classes a
+// class inherits from are placed before the class itself.
+func inheritOrder(ca []slip.Class) (ordered []slip.Class) {
+	sort.Slice(ca, func(i, j int) bool {
+		return ca[i].Name() < ca[j].Name()
+	})
+	placed := map[slip.Class]bool{}
+	var place func(c slip.Class)
+	place = func(c slip.Class) {
+		if placed[c] {
+			return
+		}
+		placed[c] = true
+		for _, base := range ca {
+			if c.Inherits(base) {
+				place(base)
+			}
+		}
+		ordered = append(ordered, c)
+	}
+	for _, c := range ca {
+		place(c)
+	}
+	return
 }
 
 var excludeVars = map[string]bool{
